@@ -72,6 +72,11 @@ func (sw *socksWorld) callback(body []byte) world.Result {
 	return sw.w.RequestWith(refdemon.Packages(sw.id, sw.w.Keys[sw.id], []refdemon.Sub{{Cmd: refdemon.CmdSocket, Req: 0, Body: body}}), 8*time.Second)
 }
 
+func isTimeout(err error) bool {
+	ne, ok := err.(net.Error)
+	return ok && ne.Timeout()
+}
+
 func readN(c net.Conn, n int, d time.Duration) []byte {
 	buf := make([]byte, n)
 	c.SetReadDeadline(time.Now().Add(d))
@@ -352,6 +357,39 @@ func runSocksScenario(sw *socksWorld, bi int, beh []Step, tr *Trace, sum *Summar
 					toAgent = append(toAgent, "close")
 				}
 				emit("ClientCloses")
+			case "OperatorKills":
+				// "socks kill" for the proxy this connection came through; a new proxy is started for the scenarios that follow
+				if pan, to := sw.operator("socks kill", sw.port); pan != "" || to {
+					sum.Incidents = append(sum.Incidents, Incident{Behaviour: bi, Kind: map[bool]string{true: "hang", false: "panic"}[to], Site: "socks kill", Detail: firstLines(pan, 12)})
+				}
+				conn.SetReadDeadline(time.Now().Add(1500 * time.Millisecond))
+				if _, err := conn.Read(make([]byte, 1)); err == io.EOF || (err != nil && !isTimeout(err)) {
+					toClient = append(toClient, "eof")
+				}
+				seen := false
+				for tries := 0; tries < 40 && !seen; tries++ {
+					time.Sleep(20 * time.Millisecond)
+					for _, t := range sw.tasks() {
+						rd := &refdemon.Rd{B: t.Body}
+						if sub := rd.I32(); sub == 0x13 && rd.I32() == sockID {
+							seen = true
+						}
+					}
+				}
+				if seen {
+					toAgent = append(toAgent, "close")
+				}
+				emit("OperatorKills")
+				sw.port = freePort()
+				sw.operator("socks add", sw.port)
+				for i := 0; i < 200; i++ {
+					c, err := net.DialTimeout("tcp", "127.0.0.1:"+sw.port, 200*time.Millisecond)
+					if err == nil {
+						c.Close()
+						break
+					}
+					time.Sleep(10 * time.Millisecond)
+				}
 			case "AgentCloses":
 				b := &refdemon.Buf{}
 				b.I32(0x13).I32(sockID).I32(2)
